@@ -6,7 +6,7 @@
  ],
  "kind": "K2",
  "tier": "thorough",
- "timeout": 2400,
+ "timeout": 1200,
  "extra_src": [
   "stubs/mem_ranges.c"
  ],
@@ -23,7 +23,8 @@
   "calls of ZSTD_wildcopy and ZSTD_copy16 are redirected to stubs (assumed contracts) that ASSERT the EXACT extent those helpers touch, transcribed from their code: copy16 reads and writes 16 bytes; wildcopy with non-overlapping or far-apart buffers touches 16 bytes if length <= 16, else 16 + (length-16 rounded up to 32); with an overlapping match closer than 16 bytes it touches max(8, length rounded up to 8) and requires source >= 8 bytes before destination; the destination extent becomes arbitrary (bytes are not modelled)",
   "ZSTD_execSequenceEnd (the slow path) is a stub here: it is unit c03_exec_sequence_end",
   "literal buffer with the over-read slack WILDCOPY_OVERLENGTH after litLimit that unit c03_decode_literals proves for every literal placement; lengths within the bounds unit c03_decode_sequence proves",
-  "decoder buffer geometry as in c03_exec_sequence_end (one output object ending exactly at oend; dictionary segment a separate object)"
+  "decoder buffer geometry as in c03_exec_sequence_end (one output object ending exactly at oend; dictionary segment a separate object)",
+  "TOOL ARTEFACT excluded by description: CBMC 6.11 reports 'arithmetic overflow on signed -' for ANY negative difference of two pointers into the same object (reproduced on a 10-line example: p < q, d = p - q); the one such expression on this path, `match - prefixStart` (match lies before the prefix, both inside the output object), is therefore not demanded; its operands' validity is still checked"
  ],
  "what": "sequence execution, fast path, on an ARBITRARY sequence (any offset incl. 0 and SIZE_MAX; lengths within the decoder's bounds): the wild copies - which deliberately write up to 31 bytes past the end of the sequence and read up to 31 bytes past the end of the literals - stay inside the output object and inside the literal buffer plus its slack, because the fast path is only taken when the sequence ends at least WILDCOPY_OVERLENGTH before oend; match sources lie inside the history; offsets reaching before the start of the history are refused; short-offset matches go through the 8-byte spreading step with source >= 8 bytes behind destination",
  "replace_calls": {
@@ -33,6 +34,16 @@
  },
  "defines": [
   "VERIF_MEM_HAVOC_SLICE"
+ ],
+ "split": {
+  "define": "ONLY_OFF",
+  "values": {
+   "far": 0,
+   "near": 1
+  }
+ },
+ "exclude_descriptions": [
+  "arithmetic overflow on signed - in match - prefixStart"
  ]
 }
 */
@@ -83,6 +94,7 @@ void harness(void)
     out = (BYTE*)malloc(So); dict = (BYTE*)malloc(p - v); lit = (BYTE*)malloc(Sl + WILDCOPY_OVERLENGTH);    /* slack after litLimit */
     ASSUME(out && dict && lit);
     ASSUME(ll <= 0x1FFFF + 0x10000 && ml <= 0x1FFFF + 0x10000 + 3);
+    ASSUME(ONLY_OFF == 0 ? off >= WILDCOPY_VECLEN : off < WILDCOPY_VECLEN);      /* one proof run per match-copy strategy */
     seq.litLength = ll; seq.matchLength = ml; seq.offset = off;
     litPtr = lit + lp;
     zstd_verif_ghost.memmove_calls = 0;
